@@ -1,4 +1,5 @@
-"""setup: nothing to build (pure Python + installed verus/z3); verify the tools are present and warm Verus."""
+"""setup: verify the tools are present, warm Verus, and build the witness probes (real crate, path dependency on /repo; cargo
+rebuilds them from the current tree at every check)."""
 import shutil, subprocess, sys, os, tempfile
 ok = True
 for t in ("verus", "z3", "cvc5"):
@@ -12,4 +13,11 @@ try:
     ok = ok and p.returncode == 0
 finally:
     shutil.rmtree(d, ignore_errors=True)
+V = os.path.dirname(os.path.dirname(os.path.abspath(__file__)))
+try:
+    p = subprocess.run("CARGO_NET_OFFLINE=true cargo build -q --offline --bins", shell=True, cwd=os.path.join(V, "witness"), capture_output=True, text=True, timeout=1500)
+    print("witness probes built" if p.returncode == 0 else "witness build failed:\n" + p.stderr[-1500:])
+    ok = ok and p.returncode == 0
+except Exception as e:
+    print("witness build:", e); ok = False
 sys.exit(0 if ok else 1)
